@@ -48,6 +48,30 @@ class LazySeq:
         return None
 
 
+class SDict:
+    """insertion-ordered dict whose keys may be symbolic strings (OrderedDict of tier names).  Invariant: the
+    stored keys are pairwise distinct on the path.  Lookups fork on key equality."""
+
+    def __init__(self, pairs=()):
+        self.pairs = list(pairs)  # [(key, value)]
+
+    def __repr__(self):
+        return "SDict(%d)" % len(self.pairs)
+
+
+def sd_find(I, d, k, note="dict key"):
+    """index of key k in d or None (forks on symbolic equality)"""
+    for i, (ki, _) in enumerate(d.pairs):
+        r = equals(I, ki, k)
+        if r is True:
+            return i
+        if r is False:
+            continue
+        if I.ctx.decide(to_z3(r), note):
+            return i
+    return None
+
+
 class Partial:
     def __init__(self, func, args, kwargs):
         self.func = func
@@ -697,6 +721,11 @@ def getitem(I, obj, idx):
                 I.raise_exc(INDEX_ERR)
             return items[idx]
         return listops.abstract_getitem(I, obj, idx)
+    if isinstance(obj, SDict):
+        i = sd_find(I, obj, idx)
+        if i is None:
+            I.raise_exc(KEY_ERR, "key")
+        return obj.pairs[i][1]
     if isinstance(obj, dict):
         if is_z3(idx):
             return listops.dict_get_symbolic(I, obj, idx)
@@ -719,6 +748,14 @@ def getitem(I, obj, idx):
 
 
 def setitem(I, obj, idx, v):
+    if isinstance(obj, SDict):
+        I.check_mutable(obj)
+        i = sd_find(I, obj, idx)
+        if i is None:
+            obj.pairs.append((idx, v))
+        else:
+            obj.pairs[i] = (obj.pairs[i][0], v)
+        return
     if isinstance(obj, dict):
         I.check_mutable(obj)
         if is_z3(idx):
@@ -747,6 +784,8 @@ def contains(I, container, x):
         return x in container
     if is_str(container) and is_str(x):
         return simp_bool(core.S_CONTAINS(to_z3(container), to_z3(x)))
+    if isinstance(container, SDict):
+        return listops.member_of_items(I, [k for k, _ in container.pairs], x)
     if isinstance(container, dict):
         if is_z3(x):
             return listops.member_of_items(I, list(container.keys()), x)
@@ -762,6 +801,12 @@ def contains(I, container, x):
 
 
 def view_items(I, v):
+    if isinstance(v.d, SDict):
+        if v.kind == "keys":
+            return [k for k, _ in v.d.pairs]
+        if v.kind == "values":
+            return [x for _, x in v.d.pairs]
+        return list(v.d.pairs)
     if v.kind == "keys":
         return list(v.d.keys())
     if v.kind == "values":
@@ -789,6 +834,10 @@ def make_builtins(I):
         (v,) = args
         if isinstance(v, AList):
             return list_len(I, v)
+        if isinstance(v, SDict):
+            return len(v.pairs)
+        if isinstance(v, V.DictItemsView) and isinstance(v.d, SDict):
+            return len(v.d.pairs)
         if isinstance(v, (tuple, dict, str, bytes)):
             return len(v)
         if isinstance(v, NT):
@@ -1198,7 +1247,7 @@ def type_of(I, v):
         return T["tuple"]
     if isinstance(v, AList):
         return T["tuple"] if v.is_tuple else T["list"]
-    if isinstance(v, dict):
+    if isinstance(v, (dict, SDict)):
         return T["dict"]
     if isinstance(v, bytes):
         return BYTES_CLASS
@@ -1236,6 +1285,8 @@ def method(I, obj, name):
         return listops.recorder_method(I, obj, name)
     if is_str(obj):
         return str_method(I, obj, name)
+    if isinstance(obj, SDict):
+        return sdict_method(I, obj, name)
     if isinstance(obj, dict):
         return dict_method(I, obj, name)
     if isinstance(obj, NT) or isinstance(obj, tuple):
@@ -1310,6 +1361,31 @@ def str_method(I, s, name):
                     return I.new_list(r)
                 return r
             raise Unsupported("str.%s on symbolic string" % name)
+        return mk(f)
+    return None
+
+
+def sdict_method(I, d, name):
+    def mk(fn):
+        return BoundMethod(d, Builtin("odict." + name, fn))
+
+    if name in ("keys", "values", "items"):
+        return mk(lambda I, args, kw: V.DictItemsView(args[0], name))
+    if name == "pop":
+        def f(I, args, kw):
+            dd, k = args[0], args[1]
+            I.check_mutable(dd)
+            i = sd_find(I, dd, k)
+            if i is None:
+                if len(args) > 2:
+                    return args[2]
+                I.raise_exc(KEY_ERR, "key")
+            return dd.pairs.pop(i)[1]
+        return mk(f)
+    if name == "get":
+        def f(I, args, kw):
+            i = sd_find(I, args[0], args[1])
+            return args[0].pairs[i][1] if i is not None else (args[2] if len(args) > 2 else None)
         return mk(f)
     return None
 
@@ -1414,8 +1490,7 @@ def stub_module(I, modname):
         reg("namedtuple", namedtuple)
 
         def ordered(I, args, kw):
-            from .interp import PDict
-            d = PDict()
+            d = SDict()
             d.owner = id(I.ctx)
             return d
         ns["OrderedDict"] = BuiltinClass("OrderedDict", (DICT_CLASS,), ctor=ordered)
